@@ -10,8 +10,10 @@ package main
 import (
 	"fmt"
 	"strings"
+	"time"
 
 	"github.com/goghcrow/yae/fun"
+	"github.com/goghcrow/yae/val"
 )
 
 func init() { props["C04"] = runC04 }
@@ -187,6 +189,28 @@ func runC04(r *Run) {
 					judgeBackendsQuiet(evalCase{fmt.Sprintf(tpl, k1, k2), false}, vars)
 				}
 				r.Count("numeric-map-key programs")
+			}
+		}
+	}
+	// exact time comparison is comparison of INSTANTS: host times denoting the same instants in other locations, alone and
+	// inside lists, maps and objects (element-by-element equality); correspondence with the model decides
+	{
+		zvars := append(append([]envVar{}, vars...), envVar{"tz0", ttime()}, envVar{"tz1", ttime()})
+		zvals := stdValues()
+		zvals["tz0"] = val.Time(t0v.In(time.FixedZone("X", 3600)))
+		zvals["tz1"] = val.Time(t1v.UTC())
+		names := []string{"t0", "tz0", "t1", "tz1"}
+		for _, a := range names {
+			for _, b := range names {
+				for _, tpl := range []string{"%s == %s", "%s != %s", "%s <= %s", "[%s] == [%s]", "[%s] != [%s]", "[[%s]] == [[%s]]", `["k": %s] == ["k": %s]`, "{a: %s} == {a: %s}", "{a: [%s], b: 1} != {a: [%s], b: 1}", "[1: {p: %s}] == [1: {p: %s}]"} {
+					src := fmt.Sprintf(tpl, a, b)
+					outs := make([]outcome, len(backends))
+					for i, be := range backends {
+						outs[i] = runOn(be, src, zvars, zvals, false)
+					}
+					emitEvalCases(r, evalCase{src, false}, zvars, zvals, outs)
+				}
+				r.Count("host-times-other-zone pairs")
 			}
 		}
 	}
